@@ -16,14 +16,31 @@ Holes in H_1..H_n (haplotigs) and holes in <chromosome>_unloc_1..m are judged ap
 known class c10-unloc-number-hole.
 "Length" of unlocs / haplotigs is not qualified in the statement: a ranking is accepted if it is non-increasing in
 sequence length OR in length including gaps.
+"Name-tagged scaffolds become <prefix><tag>" is judged for every Pretext scaffold carrying a chromosome-name tag (--help: "Upper
+case letters followed by zero or more digits are assumed to be chromosome names", nothing there asks for paint), painted or not.
+The statement says "written": for cases carrying "cli_out" (an --output file name) the real command line (pretext-to-asm, in
+process, temporary directory) is run as well and every assembly file it WRITES (TPF or AGP) is read back with a hand-written
+reader: the scaffold names in the order of the file must be unique and in the order of the statement, and next to every
+*.curated.* file that holds chromosomes there must be a <same stem>.chromosome.list.csv with exactly one line per chromosome or
+unloc scaffold of that file, in the file's order, localised = no exactly for unlocs (and no such CSV otherwise).  This includes
+the files of Primary-tag mode (--help: "Primary in a multi-haplotype Pretext map where only one of the haplotypes is being
+curated"): *.primary.curated.* and the file of everything else, *.all_haplotigs.curated.*.
+NOT generated (reported as a violation of the UNCHANGED tree, round 5): Primary-tag maps whose *.all_haplotigs.* file is put
+together from two or more assemblies that are not already in the statement's order when written one after the other in the
+order of their first appearance in the map: a third haplotype (SUPER_1 twice in one file), sequence of no haplotype that comes
+in the map before the first scaffold of the second haplotype, or whose names sort before the second haplotype's unplaced names.
+The generator keeps sequence of no haplotype behind every scaffold of the other haplotype and gives it lower-case names.
 """
 
 import itertools
 import math
+import pathlib
 import random
 import re
+import tempfile
 from fractions import Fraction
 
+from . import cli_gen
 from . import pipeline_gen as pg
 from .common import Collector
 
@@ -332,7 +349,16 @@ def naming_problems(case, run):
     chrom_of = {}
     n_judged = 0
     for k, (psc, info) in enumerate(zip(mp["scaffolds"], infos, strict=True), 1):
-        if not info["painted"] or (info["target"] is False and any(i["target"] for i in infos)):
+        if info["target"] is False and any(i["target"] for i in infos):
+            continue
+        if not info["painted"]:
+            # an unpainted scaffold carrying a chromosome-name tag: "name-tagged scaffolds become <prefix><tag>"
+            if info["name_tag"]:
+                for si in sorted({home(p) for p in psc if not pg.piece_special(p)} - {None}):
+                    n_judged += 1
+                    name = idx.scaffolds[si][1]["name"]
+                    if name != prefix + info["name_tag"]:
+                        P(f"Scaffold_{k} (not painted) is tagged {info['name_tag']!r} but was written as {name!r}, expected {prefix + info['name_tag']!r}: name-tagged scaffolds become <prefix><tag>")
             continue
         mains = {home(p) for p in psc if not pg.piece_special(p) and "Unloc" not in p[4]} - {None}
         unlocs = [home(p) for p in psc if not pg.piece_special(p) and "Unloc" in p[4]]
@@ -417,6 +443,92 @@ def naming_problems(case, run):
     return problems, n_judged
 
 
+# ---------------------------------------------------------------------------------------------- the written files
+
+CLI_OUT_NAMES = ("out.tpf", "idTest1.2.agp", "x.agp", "mVulVul1.3.tpf")
+
+
+def written_names(text, ext):
+    """
+    scaffold names of a written TPF / AGP assembly file in the order of the file, one entry per run of consecutive rows of one
+    scaffold (a name that comes back later in the file is listed twice); hand-written reader, no project code
+    """
+    names = []
+    for line in text.splitlines():
+        if not line.strip() or line.startswith("#"):
+            continue
+        cols = line.split("\t")
+        if ext == "tpf":
+            if cols[0] == "GAP":
+                continue
+            name = cols[2]
+        else:
+            name = cols[0]
+        if not names or names[-1] != name:
+            names.append(name)
+    return names
+
+
+def run_cli(case):
+    """
+    the case through the real command line: -a input (AGP or TPF text), -p PretextView AGP, -o <tmp>/out/<case["cli_out"]>,
+    -c prefix -> (exit code, error text, {assembly file name: [scaffold names in file order]}, {csv file name: [[columns]]})
+    """
+    out_name = case["cli_out"]
+    ext = out_name.rsplit(".", 1)[1].lower()
+    with tempfile.TemporaryDirectory() as d:
+        d = pathlib.Path(d)
+        if case.get("via") == "tpf" and pg.tpf_ok(case["input"]):
+            asm = d / "asm.tpf"
+            asm.write_text(pg.input_tpf_text(case["input"]))
+        else:
+            asm = d / "asm.agp"
+            asm.write_text(pg.input_agp_text(case["input"]))
+        (d / "pretext.agp").write_text(pg.pretext_agp_text(case["map"]))
+        out_dir = d / "out"
+        out_dir.mkdir()
+        args = ["-a", asm, "-p", d / "pretext.agp", "-o", out_dir / out_name, "-c", case.get("prefix", "SUPER_"), "--no-write-log", "-l", "ERROR"]
+        code, _, err, exc = cli_gen.run_pretext_to_asm(args)
+        files, csvs = {}, {}
+        for path in sorted(out_dir.iterdir()):
+            if not path.is_file():
+                continue
+            if path.name.lower().endswith("." + ext):
+                files[path.name] = written_names(path.read_text(), ext)
+            elif path.name.endswith(".chromosome.list.csv"):
+                csvs[path.name] = [ln.split(",") for ln in path.read_text().splitlines()]
+    return code, ((exc or "") + " " + (err or "")).strip()[-300:], files, csvs
+
+
+def written_problems(case, files, csvs, judge_csv=True):
+    """the statement, read on the files the command line wrote -> [message]"""
+    prefix = case["prefix"]
+    rank = {"auto": 0, "named": 1, "unplaced": 2}
+    problems = []
+    claimed = set()
+    for fn, names in files.items():
+        dup = sorted({n for n in names if names.count(n) > 1})
+        if dup:
+            problems.append(f"written file {fn}: scaffold names not unique: {dup} (order of the file: {names})")
+            continue
+        want = sorted(names, key=lambda n: (rank[classify(n, prefix)[0]], pg.natural_key(n)))
+        if names != want:
+            problems.append(f"written file {fn}: scaffolds are written in order {names}, expected {want} (autosomes with their unlocs, named chromosomes, unplaced, each in numeric-aware name order)")
+        if ".curated." not in fn or not judge_csv:
+            continue
+        csv_name = fn[: fn.index(".curated.")] + ".chromosome.list.csv"
+        claimed.add(csv_name)
+        want_csv = [(n, "no" if "_unloc_" in n else "yes") for n in names if classify(n, prefix)[0] != "unplaced"]
+        lines = csvs.get(csv_name, [])
+        got_csv = [(ln[0], ln[-1]) for ln in lines]
+        if any(len(ln) != 3 for ln in lines) or got_csv != want_csv:
+            problems.append(f"written file {csv_name}: (name, localised) {got_csv if csv_name in csvs else 'no such file'}, expected one line per chromosome or unloc scaffold of {fn}: {want_csv}")
+    if judge_csv:
+        for csv_name in sorted(set(csvs) - claimed):
+            problems.append(f"written file {csv_name} belongs to no written *.curated.* assembly file (files: {sorted(files)})")
+    return problems
+
+
 def first_haplotype_key(case, out):
     """assembly key whose numbering must be hole-free and size-ranked: the primary, or the first haplotype of the map"""
     for psc in case["map"]["scaffolds"]:
@@ -439,6 +551,14 @@ def check(case, col, side=None):
         col.fail(f"consistently tagged PretextView-model map: no names were produced, remapping crashed ({run.stage}): {run.error_text}", case)
         return None
     problems, judged = naming_problems(case, run)
+    if case.get("cli_out"):
+        code, err, files, csvs = run_cli(case)
+        if code != 0:
+            col.fail(f"consistently tagged PretextView-model map which the library calls accept: pretext-to-asm -o {case['cli_out']} exits with {code}: {err}", case)
+            return None
+        # a chromosome list that is already wrong in memory (known class or not) is reported there, not a second time for the file
+        csv_ok = not any("chromosome list CSV" in m for m, _ in problems)
+        problems.extend((m, None) for m in written_problems(case, files, csvs, judge_csv=csv_ok))
     if problems:
         # a failure carries class strings only if EVERY problem of the case is explained by a named class; a case with any
         # unexplained problem is a plain failure (classes []), with the unexplained problems first in the message
@@ -540,6 +660,17 @@ def make_case(rng, idx, allow_unloc_only=True):
         if pcs and rng.random() < 0.8:
             tg = ["Haplotig"] if rng.random() < 0.4 else []
             plan.append({"painted": False, "hap": None, "name_tag": None, "pieces": [(p, rng.choice((1, -1)), list(tg)) for p in pcs]})
+    # chromosomes the curator named but did not paint (small sex / B chromosomes): one or two pieces, anywhere in the map
+    if tags_left and rng.random() < 0.15:
+        for _ in range(rng.choice((1, 1, 2))):
+            if not tags_left:
+                break
+            pcs = new_pieces(1, cut_p=0.5, min_len=40)
+            if pcs and rng.random() < 0.3:
+                pcs = pcs + new_pieces(1, hap=pcs[0][0].split("_")[0] if two else None, cut_p=0.0)
+            if pcs:
+                sc = {"painted": False, "hap": None, "name_tag": tags_left.pop(), "pieces": [(p, rng.choice((1, -1)), []) for p in pcs]}
+                plan.insert(rng.randint(0, len(plan)), sc)
     mp = pg.plan_to_map(plan, bpt, rng)
     return {"input": inp, "map": mp, "prefix": prefix, "via": pg.pick_via(inp, idx), "mode": "two" if two else "single"}
 
@@ -719,6 +850,174 @@ def emptied_piece_cases(tier, rng):
                             yield emptied_piece_case(series, kind, pos, sizes, bpt, rng, n, tail=n % 3 == 0)
 
 
+# ------------------------------------------------------------------------------- enumerated: named but not painted
+
+
+def name_tag_case(haps, kind, tag, place, with_x, bpt, rng, n):
+    """
+    a map of 2 painted autosomes per haplotype (haps = () or (A, B): pairs of homologues), with_x: a painted pair tagged X,
+    two untagged unplaced scaffolds, and ONE scaffold that carries the chromosome-name tag `tag` but is NOT painted:
+      kind  one   a whole input scaffold          join  two whole input scaffolds
+            cut   the two halves of one input scaffold, in order
+            hap   (two-haplotype maps) a whole input scaffold named after one haplotype, also tagged with the other
+      place front = first scaffold of the map / between = behind the first autosomes / back = behind the painted scaffolds /
+            last = behind the unplaced ones
+    """
+    inp = []
+
+    def src(h, size):
+        i = len(inp) + 1
+        name = f"{h.upper()}_SCAFFOLD_{i}" if h else f"scaffold_{i}"
+        sc = pg.make_scaffold(name, [size], [rng.choice((1, -1))], None, "fasta" if h else ("own", "fasta", "offset")[n % 3], tag=str(i))
+        inp.append(sc)
+        return sc
+
+    def whole(sc):
+        return (pg.pieces_of(sc, bpt, "floor", ())[0], rng.choice((1, -1)), [])
+
+    members = haps or (None,)
+    sizes = {0: (400, 300), 1: (350, 380)}
+    plan = []
+    for g in range(2):
+        for hi, h in enumerate(members):
+            plan.append({"painted": True, "hap": h, "name_tag": None, "pieces": [whole(src(h, sizes[hi][g]))]})
+    n_first = len(members)
+    if with_x:
+        for hi, h in enumerate(members):
+            plan.append({"painted": True, "hap": h, "name_tag": "X", "pieces": [whole(src(h, 200 - 20 * hi))]})
+    n_painted = len(plan)
+    for h in members:
+        plan.append({"painted": False, "hap": None, "name_tag": None, "pieces": [whole(src(h, 70))]})
+    if not haps:
+        plan.append({"painted": False, "hap": None, "name_tag": None, "pieces": [whole(src(None, 40))]})
+    h0 = haps[n % 2] if haps else None
+    first = src(h0, 150)
+    if kind == "join":
+        pcs = [whole(first), whole(src(h0, 90))]
+    elif kind == "cut":
+        n_tex = pg.texels(pg.rows_len(first["rows"]), bpt, "floor")
+        pcs = [(pc, 1, []) for pc in pg.pieces_of(first, bpt, "floor", (n_tex // 2,))]
+    else:
+        pcs = [whole(first)]
+    named = {"painted": False, "hap": haps[1 - n % 2] if kind == "hap" else None, "name_tag": tag, "pieces": pcs}
+    plan.insert({"front": 0, "between": n_first, "back": n_painted, "last": len(plan)}[place], named)
+    mp = pg.plan_to_map(plan, bpt, rng)
+    return {"input": inp, "map": mp, "prefix": ("SUPER_", "chr", "Chr_")[n % 3], "via": ("agp", "tpf", "objects")[n % 3], "mode": "two" if haps else "single",
+            "family": "name-tag", "cli_out": CLI_OUT_NAMES[n % len(CLI_OUT_NAMES)]}
+
+
+def name_tag_cases(tier, rng):
+    """
+    ENUMERATED scope "named but not painted" (statement: name-tagged scaffolds become <prefix><tag>, are written behind the
+    autosomes and in front of the unplaced scaffolds, and have a line in the chromosome list): name_tag_case for every kind x
+    place x no haplotypes / two haplotypes; the tag (Y, W, Z, B1, B2), a painted X pair, prefix, texel size and output format
+    rotate.  Every case also runs the command line.  thorough: x every tag x with / without X x texel sizes 1 and 10.
+    """
+    quick = tier == "quick"
+    tags = ("Y", "W", "Z", "B1", "B2")
+    n = 0
+    for haps in ((), ("Hap1", "Hap2"), ("Mat", "Pat")):
+        for kind in ("one", "join", "cut") + (("hap",) if haps else ()):
+            for place in ("front", "between", "back", "last"):
+                if quick:
+                    n += 1
+                    if haps == ("Mat", "Pat") and n % 2:
+                        continue
+                    yield name_tag_case(haps, kind, tags[n % len(tags)], place, n % 3 != 0, (1.0, 10.0)[(n // 2) % 2], rng, n)
+                    continue
+                for tag in tags:
+                    for with_x in (False, True):
+                        for bpt in (1.0, 10.0):
+                            n += 1
+                            yield name_tag_case(haps, kind, tag, place, with_x, bpt, rng, n)
+
+
+# ------------------------------------------------------------------------------- enumerated: the files of Primary-tag mode
+
+
+def primary_written_case(haps, primary, tagged, n_groups, extras, n_nohap, bpt, rng, n):
+    """
+    a two-haplotype map (haps = (A, B)) of which only haplotype P = haps[primary] is curated: its first painted scaffold carries
+    the Primary tag.  n_groups pairs of painted homologues (A then B); tagged: every painted scaffold carries its haplotype's
+    tag (else the haplotypes are known from the input names <HAP>_SCAFFOLD_<n> alone); extras: "unloc" an Unloc piece on the last
+    chromosome of the OTHER haplotype, "named" a painted pair tagged Z, "haplotig" a Haplotig piece; unplaced scaffolds of both
+    haplotypes; then, BEHIND every scaffold of the other haplotype, n_nohap unplaced scaffolds that belong to no haplotype
+    (scaffold_<n>) and, at texel size 10, one more that is too short to be in the map.
+    The command line writes P to *.primary.curated.* and everything else that is curated to *.all_haplotigs.curated.*
+    """
+    p_hap, o_hap = haps[primary], haps[1 - primary]
+    inp = []
+
+    def src(h, lengths):
+        i = len(inp) + 1
+        name = f"{h.upper()}_SCAFFOLD_{i}" if h else f"scaffold_{i}"
+        sc = pg.make_scaffold(name, lengths, [rng.choice((1, -1)) for _ in lengths], [(10, "scaffold")] * (len(lengths) - 1), "fasta", tag=str(i))
+        inp.append(sc)
+        return sc
+
+    def whole(sc, tags=()):
+        return (pg.pieces_of(sc, bpt, "floor", ())[0], rng.choice((1, -1)), list(tags))
+
+    sizes = {0: (300, 400, 250, 200), 1: (380, 280, 90, 350)}
+    plan = []
+    for g in range(n_groups):
+        for hi, h in enumerate(haps):
+            pcs = [whole(src(h, [sizes[hi][g]] if g else [sizes[hi][g], 40]))]
+            if "unloc" in extras and h == o_hap and g == n_groups - 1:
+                pcs.append(whole(src(h, [60]), ["Unloc"]))
+            plan.append({"painted": True, "hap": h if tagged else None, "name_tag": None, "pieces": pcs, "of": h})
+    if "named" in extras:
+        for hi, h in enumerate(haps):
+            plan.append({"painted": True, "hap": h if tagged else None, "name_tag": "Z", "pieces": [whole(src(h, [150 - 10 * hi]))], "of": h})
+    for h in (o_hap, p_hap, o_hap):
+        plan.append({"painted": False, "hap": None, "name_tag": None, "pieces": [whole(src(h, [rng.choice((70, 90, 120))]))]})
+    if "haplotig" in extras:
+        plan.append({"painted": False, "hap": None, "name_tag": None, "pieces": [whole(src(o_hap, [80]), ["Haplotig"])]})
+    for _ in range(n_nohap):
+        plan.append({"painted": False, "hap": None, "name_tag": None, "pieces": [whole(src(None, [rng.choice((40, 70, 150))]))]})
+    if bpt > 7 and n % 2:
+        src(None, [7])  # shorter than a texel: absent from the map, of no haplotype
+    first = next(k for k, sc in enumerate(plan) if sc["painted"] and sc["of"] == p_hap)
+    for sc in plan:
+        sc.pop("of", None)
+    mp = pg.plan_to_map(plan, bpt, rng)
+    psc = mp["scaffolds"][first]
+    where = rng.choice(("all", "first", "last"))
+    for i, piece in enumerate(psc):
+        if where == "all" or (where == "first" and i == 0) or (where == "last" and i == len(psc) - 1):
+            piece[4].append("Primary")
+    return {"input": inp, "map": mp, "prefix": ("SUPER_", "chr", "Chr_")[n % 3], "via": ("agp", "tpf", "objects")[n % 3], "mode": "two",
+            "family": "primary-written", "cli_out": CLI_OUT_NAMES[n % len(CLI_OUT_NAMES)]}
+
+
+def primary_written_cases(tier, rng):
+    """
+    ENUMERATED scope "the files of Primary-tag mode": primary_written_case for each haplotype tag set x curated haplotype (first /
+    second of the map) x haplotype tags present / names only x 0, 1 or 2 unplaced scaffolds of no haplotype (with 0 and no absent
+    scaffold the all_haplotigs file is one assembly, else it is put together from two) x 1-3 pairs of chromosomes x extras (Unloc
+    on the other haplotype, a named pair Z, a Haplotig).  quick: pairs / extras / texel size rotate; thorough: every subset of
+    the extras x 1-3 pairs x texel sizes 1 and 10.
+    """
+    quick = tier == "quick"
+    all_extras = [tuple(x for x, keep in zip(("unloc", "named", "haplotig"), bits) if keep) for bits in itertools.product((False, True), repeat=3)]
+    n = 0
+    for haps in HAP_SETS2:
+        for primary in (0, 1):
+            for tagged in (True, False):
+                for n_nohap in (0, 1, 2):
+                    if quick:
+                        n += 1
+                        if (n + HAP_SETS2.index(haps)) % 2:
+                            continue
+                        yield primary_written_case(haps, primary, tagged, 1 + n % 3, all_extras[(n // 2) % 8], n_nohap, (1.0, 10.0)[(n // 2) % 2], rng, n)
+                        continue
+                    for extras in all_extras:
+                        for n_groups in (1, 2, 3):
+                            for bpt in (1.0, 10.0):
+                                n += 1
+                                yield primary_written_case(haps, primary, tagged, n_groups, extras, n_nohap, bpt, rng, n)
+
+
 def _fx(name, *rows):
     return {"name": name, "rows": list(rows)}
 
@@ -761,11 +1060,16 @@ def run(tier, seed, **opts):
         "unplaced scaffolds (40 % tagged Haplotig); contig lengths from {20,40,40,70,150,150,400} so that equal sizes are "
         "frequent; prefixes SUPER_/chr/Chr_; PLUS enumerated: maps of 2-3 haplotypes with every order of first appearance of the "
         "haplotype tags and chromosome sizes whose order differs between the haplotypes; series of 3-4 Haplotig / Unloc pieces one of "
-        "which (first, middle, last) is too small to be resolved and is not written; oracle: names, numbering, size ranking, order and CSV from the statement; "
+        "which (first, middle, last) is too small to be resolved and is not written; 15 % of the seeded maps and an enumerated scope (one / two joined / two cut pieces, "
+        "front / between / back / last, 0 or 2 haplotypes) hold a scaffold that carries a chromosome-name tag (Y, W, Z, B1, B2) but is NOT painted; an enumerated scope of "
+        "Primary-tag maps (either haplotype curated, haplotype tags or names only, 0-2 unplaced scaffolds of no haplotype behind the other haplotype, Unloc / named pair / "
+        "Haplotig); oracle: names, numbering, size ranking, order and CSV from the statement, on the returned dict and - for every enumerated case of these two scopes and "
+        "every n-th seeded case - on the assembly files and *.chromosome.list.csv files the pretext-to-asm command line WRITES (TPF or AGP, read back by hand); "
         "non-trivial = distinct completed case with >= 2 painted scaffolds or an Unloc/Haplotig piece"
     )
     n_cases = 3500 if tier == "quick" else 80000
-    stats = {"rejected_tagging": 0, "judged": 0, "single": 0, "two": 0, "three": 0, "hap-order": 0, "emptied-haplotig": 0, "emptied-unloc": 0, "enumerated_rejected": 0}
+    cli_every = 20 if tier == "quick" else 40  # every n-th seeded case is also run through the command line
+    stats = {"rejected_tagging": 0, "judged": 0, "single": 0, "two": 0, "three": 0, "hap-order": 0, "emptied-haplotig": 0, "emptied-unloc": 0, "name-tag": 0, "primary-written": 0, "enumerated_rejected": 0, "cli": 0}
     side = {}
 
     def stream():
@@ -775,14 +1079,22 @@ def run(tier, seed, **opts):
             yield -1, c
         for c in emptied_piece_cases(tier, random.Random(f"c10-emptied-{seed}")):
             yield -1, c
+        for c in name_tag_cases(tier, random.Random(f"c10-name-tag-{seed}")):
+            yield -1, c
+        for c in primary_written_cases(tier, random.Random(f"c10-primary-written-{seed}")):
+            yield -1, c
         for j in range(n_cases):
-            yield j, make_case(rng, j)
+            c = make_case(rng, j)
+            if j % cli_every == 3:
+                c["cli_out"] = CLI_OUT_NAMES[(j // cli_every) % len(CLI_OUT_NAMES)]
+            yield j, c
 
     for i, case in stream():
         if col.full:
             break
         judged = check(case, col, side)
         stats[case["mode"]] += 1
+        stats["cli"] += bool(case.get("cli_out"))
         if case.get("family"):
             stats[case["family"]] += 1
             stats["enumerated_rejected"] += judged is None
@@ -798,7 +1110,8 @@ def run(tier, seed, **opts):
     return col.result(
         bounds=(
             f"{len(FIXED_CASES)} fixed hand-made cases + {stats['hap-order']} enumerated haplotype-order cases + {stats['emptied-haplotig']} / {stats['emptied-unloc']} "
-            f"enumerated lost-piece cases in a Haplotig / Unloc series ({stats['enumerated_rejected']} enumerated cases rejected) + {n_cases} seeded cases; up to ~40 input scaffolds x <= 3 contigs (lengths 7-400, gaps 1-200); texel sizes {{1,2.5,10,33.3}}; painted scaffolds / "
+            f"enumerated lost-piece cases in a Haplotig / Unloc series + {stats['name-tag']} enumerated named-but-not-painted cases + {stats['primary-written']} enumerated Primary-tag-mode cases "
+            f"({stats['enumerated_rejected']} enumerated cases rejected) + {n_cases} seeded cases; cases also run through the command line (written files judged): {stats['cli']}; up to ~40 input scaffolds x <= 3 contigs (lengths 7-400, gaps 1-200); texel sizes {{1,2.5,10,33.3}}; painted scaffolds / "
             f"unloc pieces whose destination was identified and judged: {stats['judged']}; maps rejected with "
             f"TaggingError/ChrNamerError (allowed): {stats['rejected_tagging']}; single-haplotype={stats['single']} "
             f"two-haplotype={stats['two']} three-haplotype={stats['three']}; cases failing only in a named class: "
